@@ -1,6 +1,7 @@
 """C18 Saving and loading an OCP preserves the problem."""
 import copy
 import casadi as ca
+import numpy as np
 import os
 import random
 import tempfile
@@ -31,6 +32,9 @@ META = {
 def models():
     out = []
     for s in scaled_models():
+        for p_ in s.params:
+            if p_.rows > 1 and p_.cols > 1:
+                p_.as_numpy = True        # the (non-symmetric) matrix value is handed over as a 2-D numpy array
         out.append(s)
     s = copy.deepcopy(fam.ode_core()[0])
     s.objective = [integral(X(0) * U(0) + t), T * 2 + at_tf(X(1))]
@@ -370,16 +374,18 @@ def run(item):
         # ground: the values the parameters carry in the original (after the save) and in the loaded OCP are the ones last assigned
         for who, bb in (('original after save', b), ('loaded', b2)):
             for p_ in spec.params:
-                if p_.value is None or p_.n != 1 or p_.grid != '':
+                if p_.value is None or p_.grid != '':
                     continue
+                from ..extract import param_value
                 try:
                     op_ = bb.ocp._method.opti
-                    got = float(op_.debug.value(bb.ocp.value(bb.psym[p_.name]), op_.initial()))
+                    got = [float(v_) for v_ in np.array(ca.DM(op_.debug.value(bb.ocp.value(bb.psym[p_.name]), op_.initial()))).flatten(order='F')]
                 except Exception as e_:
                     V('p-unreadable', p_.name, 'value of parameter %s of the %s OCP cannot be read: %s' % (p_.name, who, str(e_)[:120]))
                     continue
-                if not close(got, float(p_.value)):
-                    V('p-stale:%s' % who.split()[0], p_.name, 'parameter %s of the %s OCP has value %r, last assigned value is %r' % (p_.name, who, got, float(p_.value)))
+                want = [float(v_) for v_ in np.array(ca.DM(param_value(p_, cfg))).flatten(order='F')]
+                if len(got) != len(want) or not all(close(a_, c_) for a_, c_ in zip(got, want)):
+                    V('p-stale:%s' % who.split()[0], p_.name, 'parameter %s of the %s OCP has value %r (column-major), last assigned value is %r' % (p_.name, who, got, want))
                 else:
                     ch.proved.append('value %s (%s)' % (p_.name, who))
         # named quantities of the loaded OCP (through ITS accessors) equal those of the original
